@@ -881,6 +881,14 @@ class Evaluator:
                 base = None
             if isinstance(base, str):
                 return getattr(base, fn.attr)(*args)      # builtin string operation on constants
+        if isinstance(fn, ast.Attribute) and fn.attr == "finditer" and args and all(isinstance(a, (str, int)) for a in args) and not kws:
+            try:
+                rx = self.expr(fn.value, env, f, depth)
+            except AnalysisError:
+                rx = None
+            if isinstance(rx, tuple) and len(rx) == 2 and rx[0] == "re" and isinstance(rx[1], str):
+                import re as _re
+                return [{"start()": m.start(), "end()": m.end(), "group()": m.group()} for m in _re.compile(rx[1]).finditer(*args)]
         if isinstance(fn, ast.Attribute) and fn.attr in ("sub", "split", "findall") and args and all(isinstance(a, (str, int)) for a in args) and not kws:
             try:
                 rx = self.expr(fn.value, env, f, depth)
